@@ -34,6 +34,9 @@ func (o *cfgObs) behaviour() string {
 	if o.BuildRC != 0 {
 		return "does not build"
 	}
+	if o.Class == "timeout" {
+		return "timeout" // how much was printed before the limit is a matter of timing, not of behaviour
+	}
 	return fmt.Sprintf("exit=%d class=%s stdout=%x", o.Exit, o.Class, sha256.Sum256([]byte(o.Stdout)))
 }
 
@@ -110,6 +113,8 @@ func diffCfg(ref, o *cfgObs) (string, string) {
 		return "", "" // the reference does not build: not a C11 question
 	case o.BuildRC != 0:
 		return fmt.Sprintf("build|O%d/mods=%t/list=%t", o.Cfg.O, o.Cfg.LinkMods, o.Cfg.LinkList), fmt.Sprintf("builds under %s but not under %s:\n%s", ref.Cfg, o.Cfg, firstLines(o.BuildOut, 8))
+	case ref.Class == "timeout" && o.Class == "timeout":
+		return "", ""
 	case ref.Exit != o.Exit || ref.Class != o.Class:
 		return fmt.Sprintf("status|O%d/mods=%t/list=%t", o.Cfg.O, o.Cfg.LinkMods, o.Cfg.LinkList), fmt.Sprintf("%s: exit %d, %s — %s: exit %d, %s", ref.Cfg, ref.Exit, ref.Class, o.Cfg, o.Exit, o.Class)
 	case ref.Stdout != o.Stdout:
@@ -198,10 +203,11 @@ func checkC11(tier string) int {
 	tc := buildToolchain()
 	thorough := tier == "thorough"
 	progs := corpusHProgs(tc)
-	nGen := 60
+	nGen := 160
 	if thorough {
 		nGen = 3000
 	}
+	nGen = envInt("VERIF_GEN", nGen)
 	if !thorough {
 		// a seeded half of the corpus in the quick tier
 		r := prng.Stream(seed, "c11", "corpus-sample")
